@@ -2,6 +2,7 @@
 //! implementation in /repo.  `vh replay <kind>`: spec -> impl; `vh record <kind>`: impl -> spec.
 #![allow(dead_code)]
 mod batch_record;
+mod boxobj_replay;
 mod common;
 mod conc_replay;
 mod gates;
@@ -36,6 +37,7 @@ fn main() {
         ("record", "batch") => batch_record::main(&opts),
         ("record", "r2") => r2_record::main(&opts),
         ("record", "conc") => conc_replay::record(&opts),
+        ("replay", "boxobj") => boxobj_replay::main(&opts),
         ("replay", "geom") => geom_replay::main(&opts),
         ("replay", "nms") => nms_replay::main(&opts),
         ("replay", "feature") => feature_replay::main(&opts),
